@@ -365,6 +365,12 @@ def ufReshape (s2 : State) (sh : Shape) (ndimChanged : Bool) : Res :=
   let s3 := { s2 with shape := sh }
   if ndimChanged then newPixels s3 sh.length else (s3, [])
 
+/-- Stages 1–3 in a row. -/
+def ufStages (s : State) (o : Other) : Res :=
+  let ndimChanged := o.shape.length != s.shape.length
+  ((ufRemove s (o.comps.map (·.1))).bind fun s1 =>
+    if ndimChanged then ufDropCoords s1 else (s1, [])).bind (ufReshape · o.shape ndimChanged)
+
 /-- Last stage: label, coordinates, `NumericalDataChangedMessage`. -/
 def ufFinish (s5 : State) (o : Other) : Res :=
   ((setLabelImpl s5 o.label).bind (setCoords · o.coords)).bind fun s7 =>
@@ -378,9 +384,7 @@ def updateFromImpl (s : State) (o : Other) : Out :=
   if !decide oldLabels.Nodup then fail s .value
   else if !decide newLabels.Nodup then fail s .value
   else
-    let ndimChanged := o.shape.length != s.shape.length
-    let r3 := ((ufRemove s newLabels).bind fun s1 =>
-      if ndimChanged then ufDropCoords s1 else (s1, [])).bind (ufReshape · o.shape ndimChanged)
+    let r3 := ufStages s o
     let both := oldLabels.filter newLabels.contains
     let s4 := { r3.1 with comps := applyRefresh r3.1 both o }
     let r5 := addNewOnes s4 o.shape (o.comps.filter fun p => !oldLabels.contains p.1)
